@@ -82,7 +82,7 @@ func (c *seqCtl) holdAtNth(point string, n int) {
 	c.mu.Unlock()
 }
 func (c *seqCtl) waitParked(point string) bool {
-	deadline := time.Now().Add(5 * time.Second)
+	deadline := time.Now().Add(20 * time.Second)
 	for {
 		c.mu.Lock()
 		ok := c.parkedAt == point
@@ -115,7 +115,7 @@ func (c *seqCtl) retire() {
 	c.mu.Unlock()
 }
 func (c *seqCtl) waitSeen() bool {
-	return waitUntil(5*time.Second, func() bool {
+	return waitUntil(20*time.Second, func() bool {
 		c.mu.Lock()
 		defer c.mu.Unlock()
 		return c.cur != 0
@@ -313,12 +313,12 @@ func (r *bkRig) exec(o wop) slot {
 
 // through waits until the slot has gone through the whole pipeline (committed; if valid: fanned out).
 func (r *bkRig) through(sl slot) {
-	if !waitUntil(5*time.Second, func() bool { return r.b.GetCurrentRevision() >= sl.rev }) {
+	if !waitUntil(20*time.Second, func() bool { return r.b.GetCurrentRevision() >= sl.rev }) {
 		r.failf("stalled: committed revision %d never reached %d", r.b.GetCurrentRevision(), sl.rev)
 	}
 	if sl.valid {
 		want := len(r.sigma)
-		if !waitUntil(5*time.Second, func() bool { return r.monitor().count() >= want }) {
+		if !waitUntil(20*time.Second, func() bool { return r.monitor().count() >= want }) {
 			r.failf("the monitor watcher did not receive revision %d within 5s", sl.rev)
 		}
 	}
@@ -428,7 +428,7 @@ func (r *bkRig) writeOutOfOrder(rnd *lib.Rand, n int) {
 	}()
 	select {
 	case <-g.reached:
-	case <-time.After(5 * time.Second):
+	case <-time.After(20 * time.Second):
 		r.failf("held create did not reach the engine")
 		return
 	}
@@ -525,7 +525,7 @@ func (r *bkRig) watch(S uint64, P []byte, lazy bool, between, after func()) *bw 
 	w.th = sched.Go(fmt.Sprintf("watch-%p-%d", r, w.id), func() {
 		w.ch, w.err = r.b.Watch(ctx, string(P), S)
 	})
-	d := 5 * time.Second
+	d := 20 * time.Second
 	pt, done := sched.Step(w.th, d)
 	if done || pt != "watch.subscribed" {
 		r.failf("watch thread: expected to park at watch.subscribed, got %q done=%v", pt, done)
@@ -607,7 +607,7 @@ func (r *bkRig) settle(w *bw, quiet bool) {
 		return
 	}
 	want := len(idealGo(w.S, w.P, w.base, r.sigma))
-	waitUntil(3*time.Second, func() bool { return w.count() >= want })
+	waitUntil(15*time.Second, func() bool { return w.count() >= want })
 	time.Sleep(300 * time.Microsecond)
 	got, closed := w.snapshot()
 	r.emitDrain(w)
@@ -623,7 +623,7 @@ func (r *bkRig) finish(w *bw, quiet bool) {
 	r.sc.labs(lW("LCancel", w.id), lW("LCtxDelete", w.id))
 	if w.lazy {
 		w.pump()
-	} else if !waitUntil(5*time.Second, func() bool { _, c := w.snapshot(); return c }) {
+	} else if !waitUntil(20*time.Second, func() bool { _, c := w.snapshot(); return c }) {
 		r.failf("w%d: result channel not closed within 5s after cancel", w.id)
 	}
 	got, closed := w.snapshot()
@@ -965,17 +965,17 @@ func bkOverflow(w *coll, scratch string, parkDeleter bool) {
 		atomic.StoreInt32(&r.hk.parkDeleters, 1)
 	}
 	one(put()) // dropped
-	if !waitUntil(5*time.Second, func() bool { return atomic.LoadInt32(&r.hk.drops) >= 1 }) {
+	if !waitUntil(20*time.Second, func() bool { return atomic.LoadInt32(&r.hk.drops) >= 1 }) {
 		r.failf("no slow-subscriber drop after %d unread batches", total+1)
 	}
 	r.sc.drops(int(atomic.LoadInt32(&r.hk.drops)))
 	if parkDeleter {
-		waitUntil(5*time.Second, func() bool { return atomic.LoadInt32(&r.hk.parked) >= 1 })
+		waitUntil(20*time.Second, func() bool { return atomic.LoadInt32(&r.hk.parked) >= 1 })
 		// the client takes one batch; processEvents refills the result channel and takes the next batch from
 		// the hub channel, which has room again
 		b := <-wt.ch
 		wt.got = append(wt.got, fromProto(b[0]))
-		waitUntil(2*time.Second, func() bool { return len(wt.ch) == oc })
+		waitUntil(10*time.Second, func() bool { return len(wt.ch) == oc })
 		time.Sleep(2 * time.Millisecond)
 		sl := put()
 		if atomic.LoadInt32(&r.hk.drops) == 1 {
